@@ -211,7 +211,9 @@ def run(case, ctx):
         model_files = {k: v for k, v in files.items() if k.startswith("models" + os.sep) and not k.endswith("__init__.py")}
         api_files = {k: v for k, v in files.items() if k.startswith("api" + os.sep) and not k.endswith("__init__.py")}
         # coincidence facts (used to scope known findings and the non-trivial rule)
-        opnames = [(_norm(o["opid"]) if o["opid"] is not None else None) for o in case["ops"]]
+        # an operation without operationId is named after its method and path (braces dropped): '/a/{x}' and '/a/x' coincide too
+        opnames = [(_norm(o["opid"]) if o["opid"] is not None else _norm(o["method"] + "_" + o["path"].replace("{", "").replace("}", "")))
+                   for o in case["ops"]]
         dup_opid = len([x for x in opnames if x is not None]) != len({x for x in opnames if x is not None})
 
         def _packages(o):
